@@ -57,7 +57,7 @@ func (b *exampleBuilder) buildExampleForObjectNode(node *ischema.ObjectNode) ([]
 
 	buf.WriteByte('{')
 	children := node.Children()
-	length := len(children)
+	written := 0
 	for i, childNode := range children {
 		ex, err := b.Build(childNode)
 		if err != nil {
@@ -73,13 +73,17 @@ func (b *exampleBuilder) buildExampleForObjectNode(node *ischema.ObjectNode) ([]
 			return nil, err
 		}
 
+		// The separator goes before every written element but the first one:
+		// skipped elements must not leave a dangling comma.
+		if written != 0 {
+			buf.WriteByte(',')
+		}
+		written++
+
 		buf.WriteByte('"')
 		buf.Write(k)
 		buf.WriteString(`":`)
 		buf.Write(ex)
-		if i+1 != length {
-			buf.WriteByte(',')
-		}
 	}
 	buf.WriteByte('}')
 	return copyBytes(buf.Bytes()), nil
@@ -112,8 +116,8 @@ func (b *exampleBuilder) buildExampleForArrayNode(node *ischema.ArrayNode) ([]by
 
 	buf.WriteByte('[')
 	children := node.Children()
-	length := len(children)
-	for i, childNode := range children {
+	written := 0
+	for _, childNode := range children {
 		ex, err := b.Build(childNode)
 		if err != nil {
 			return nil, err
@@ -123,10 +127,12 @@ func (b *exampleBuilder) buildExampleForArrayNode(node *ischema.ArrayNode) ([]by
 			continue
 		}
 
-		buf.Write(ex)
-		if i+1 != length {
+		if written != 0 {
 			buf.WriteByte(',')
 		}
+		written++
+
+		buf.Write(ex)
 	}
 	buf.WriteByte(']')
 	return copyBytes(buf.Bytes()), nil
